@@ -223,7 +223,7 @@ type H struct {
 	holdTO  atomic.Int64
 }
 
-var counterNames = []string{"hold-entered", "hold-missed", "fired-while-open", "skipped-no-context", "respawn-skipped", "respawned",
+var counterNames = []string{"flooded", "hold-entered", "hold-missed", "fired-while-open", "skipped-no-context", "respawn-skipped", "respawned",
 	"local-unknown-context", "user-message-before-OnLaunch", "decisions", "shutdown-hang", "futureask-ok", "futureask-timeout",
 	"hold-missed:user", "hold-missed:local", "hold-missed:timer", "hold-missed:launch", "hold-missed:restarting", "hold-missed:terminate"}
 
@@ -589,6 +589,13 @@ func (h *H) fire(op *Op) {
 	switch op.K {
 	case "tell":
 		h.sys.Tell(t, &work{busy: op.Busy})
+	case "flood":
+		// a backlog deeper than any per-pass budget a runner might have: several hundred messages queue up behind the open
+		// invocation and are then worked off in one go
+		for i := 0; i < op.N; i++ {
+			h.sys.Tell(t, &work{})
+		}
+		h.count("flooded")
 	case "sysask":
 		h.sys.Ask(t, &ping{busy: op.Busy})
 	case "futureask":
@@ -989,7 +996,7 @@ func genCase(rng *vh.RNG) Case {
 		nslots++
 	}
 	np := rng.Range(3, 6)
-	timers := false
+	timers, flooded := false, false
 	for i := 0; i < np; i++ {
 		if rng.Chance(2, 5) {
 			p := Phase{K: "storm", Dwell: rng.Intn(400)}
@@ -1027,6 +1034,11 @@ func genCase(rng *vh.RNG) Case {
 		}
 		for k, n := 0, rng.Range(3, 10); k < n; k++ {
 			p.Ops = append(p.Ops, genOp(rng, &c, nslots, p.T, false))
+		}
+		if !flooded && (p.HK == "user" || p.HK == "local") && rng.Chance(1, 6) {
+			flooded = true // at most one per case: the trace grows by two events per message
+			at := rng.Intn(len(p.Ops) + 1)
+			p.Ops = append(p.Ops[:at], append([]Op{{K: "flood", T: p.T, O: p.T, N: rng.Range(300, 700)}}, p.Ops[at:]...)...)
 		}
 		// a held invocation that registers timers: half of the time the target has been RESTARTED just before, so that the timers
 		// are registered by (and fire into) an actor whose context, scheduler and mailbox have been through a restart
